@@ -234,21 +234,25 @@ def transcript(result):
 def ftp_level(chk, tier, rng):
     n = 100 if tier == "quick" else 2500
     scheds = [rename_session(rng) for _ in range(n)] + [gen.rand_session(rng, 1, steps=rng.choice([6, 10])) for _ in range(n)]
-    outs = {}
-    for b in ("memory", "path", "async"):
-        cfg = gen.std_cfg(ns=1, backend=b)
-        outs[b] = corecheck.validate(chk, cfg, gen.STD_TREE, scheds, label="ftp:" + b)
-    for i, sch in enumerate(scheds):
-        ts = {}
-        for b in outs:
-            rep, data, tree = transcript(outs[b][i][1])
-            # listings are compared as entry sets (order and time stamps are backend business)
-            data = [d for d in data if not (d and isinstance(d[0], int) and outs[b][i][1]["trace"] is None)]
-            ts[b] = (rep, tree)
-        if not (ts["memory"] == ts["path"] == ts["async"]):
-            chk.violation({"at": "ftp-differential"}, ts, {"schedule": sch})
-    chk.notes["ftp_sequences_per_backend"] = len(scheds)
-    return scheds
+    # two sessions with handles on the same file at the same time (a transfer held in its j-th read / write while the other
+    # session stats, lists or downloads that file)
+    obs = gen.observer_family()
+    for ns, group, tag in ((1, scheds, "ftp:"), (2, obs, "ftp2:")):
+        outs = {}
+        for b in ("memory", "path", "async"):
+            cfg = gen.std_cfg(ns=ns, backend=b)
+            outs[b] = corecheck.validate(chk, cfg, gen.STD_TREE, group, label=tag + b)
+        for i, sch in enumerate(group):
+            ts = {}
+            for b in outs:
+                rep, data, tree = transcript(outs[b][i][1])
+                # listings are compared as entry sets (order and time stamps are backend business)
+                listing = "LIST" in repr(sch) or "MLSD" in repr(sch)
+                ts[b] = (rep, tree) if ns == 1 or listing else (rep, [d for d in data if d and isinstance(d[0], int)], tree)
+            if not (ts["memory"] == ts["path"] == ts["async"]):
+                chk.violation({"at": "ftp-differential"}, ts, {"schedule": sch})
+    chk.notes["ftp_sequences_per_backend"] = len(scheds) + len(obs)
+    return scheds + obs
 
 
 def run(tier, seed):
